@@ -20,7 +20,7 @@ ASSUMPTIONS = ['a text element occupies its display columns x one row (the ancho
 FLOORS = {'quick': {'distinct_nontrivial': 3000, 'with_quoted': 300, 'with_circle_or_arc': 300, 'blank_documents': 10},
           'thorough': {'distinct_nontrivial': 60000, 'with_quoted': 6000, 'with_circle_or_arc': 6000, 'blank_documents': 100}}
 SCALES = [0.5, 1.0, 3.0, 8.0, 8.0, 8.0, 10.0, 20.0, 37.5]
-EDGE = "_/\\.,'`()<>^vV*oO#+-|=~:!" + "╱╲╳┼├┤┬┴╭╮╯╰◜◝◞◟▲▼◀▶日字"
+EDGE = "_/\\.,'`()<>^vV*oO#+-|=~:!" + "╱╲╳┼├┤┬┴╭╮╯╰◜◝◞◟▲▼◀▶日字\u1100\u26a1"
 EPS = 1e-4
 
 
